@@ -78,6 +78,15 @@ type Settings struct {
 	Limits map[string]any `json:"limits"`
 }
 
+// EmptyA and EmptyB are mapped by two objects that share ONE property (model kind "emptydef"): the field types differ.
+type Label string
+type EmptyA struct {
+	Name string `json:"name"`
+}
+type EmptyB struct {
+	Name Label `json:"name"`
+}
+
 type MemberA struct {
 	N int64 `json:"n"`
 }
@@ -230,6 +239,8 @@ var ckinds = map[string]kindInfo{
 	"enum_str":       {"enum", []string{"fresh", "rebuilt"}},
 	"enum_int":       {"enum", []string{"fresh", "rebuilt"}},
 	"steps":          {"steps", []string{"fresh", "derived", "plain"}},
+	"patnil":         {"patnil", []string{"fresh", "rebuilt"}},
+	"emptydef":       {"emptydef", []string{"fresh"}},
 	"list_oneof":     {"listarg", []string{"fresh", "rebuilt"}},
 	"list_any":       {"listarg", []string{"fresh", "rebuilt"}},
 	"list_objmap":    {"listarg", []string{"fresh", "rebuilt"}},
@@ -377,6 +388,17 @@ func buildScope(ckind string) (*schema.ScopeSchema, error) {
 		return wrap(strEnum("")), nil
 	case "enum_int":
 		return wrap(intEnum("")), nil
+	case "patnil":
+		// root{filters: list of pattern}
+		return schema.NewScopeSchema(schema.NewObjectSchema("root", map[string]*schema.PropertySchema{
+			"filters": prop(schema.NewListSchema(schema.NewPatternSchema(), nil, nil), nil)})), nil
+	case "emptydef":
+		// ONE property instance (a string of at least one character, the empty value standing for "unset") shared by
+		// two struct-mapped objects whose fields have different Go types
+		shared := prop(schema.NewStringSchema(schema.PointerTo(int64(1)), nil, nil), nil).TreatEmptyAsDefaultValue()
+		return schema.NewScopeSchema(
+			schema.NewStructMappedObjectSchema[EmptyA]("A", map[string]*schema.PropertySchema{"name": shared}),
+			schema.NewStructMappedObjectSchema[EmptyB]("B", map[string]*schema.PropertySchema{"name": shared})), nil
 	case "list_oneof":
 		// items of one-of type: the list's reflected type is []any; members are map-based and have defaults
 		a := schema.NewObjectSchema("A", map[string]*schema.PropertySchema{"n": prop(intMax10(), schema.PointerTo("3"))})
@@ -514,7 +536,7 @@ func build(ckind, origin string) (*instance, error) {
 	}
 	in.scope = s
 	switch info.kind {
-	case "objmap", "objstruct", "objdep", "objnest", "chain", "compat2", "disabled", "objreq", "meta":
+	case "objmap", "objstruct", "objdep", "objnest", "chain", "compat2", "disabled", "objreq", "patnil", "emptydef", "meta":
 		in.target = s
 	case "anylist":
 		if ckind == "any_prop" {
